@@ -225,6 +225,7 @@ def only_duplicates_skipped(ctx, rule, fn_path=SM):
         same_line = has_fact(body, d, {**roles, **{l: "L" for l in _line_local(body, roles)}}, ("Eq", "L", "Token::get_dst_line(token)"), ("Eq", "Token::get_dst_line(token)", "L"))
         ctx.check(same_line, rule, fn, "dup:same-line", "the duplicate test is made only against a predecessor on the same line", ctx.site(body, d))
         ctx.check(has_fact(body, d, roles, ("Lt", "0", "idx")), rule, fn, "dup:idx>0", "... and only when a predecessor exists", ctx.site(body, d))
+        ctx.check(not body.reaches(tb, emit[0], avoid=[head]) and tb != emit[0], rule, fn, "dup:skipped", "an exact duplicate is skipped: nothing is emitted for it in this iteration (both writers agree on what a segment is)", ctx.site(body, d))
     teq = ctx.body("<types::Token<'_> as core::cmp::PartialEq>::eq")
     ok = any(q.shape(teq.expr_of_call(t)) == q.eqs("eq", "arg1.raw", "arg2.raw") for bi, t in teq.calls())
     ctx.check(ok, rule, teq.path, "token-eq", "Token equality compares the whole RawToken")
@@ -545,11 +546,13 @@ def range_writer(ctx, rule, parts=("R1", "R2", "R3")):
         newlen = q.shape(q.arg_expr(body, rt, 1), r2)
         if newlen in ("Add(1,Div(NUM,8))", "Add(1,Shr(NUM,3))") and body.reaches(rb, sb):
             # every path to the set either resized or saw len > num/8
+            # every path to the set either resized or saw len > num/8: the only condition that may
+            # guard the resize is exactly len <= num/8 (no guard at all is fine too)
             guard_ok = True
-            for d in range(len(body.blocks)):
-                t = body.blocks[d]["term"]
-                if t["k"] == "switch" and q.shape(body.expr_of_operand(t["discr"]), r2) in ("Le(Vec::len(var:Vec<u8>),Div(NUM,8))", "Lt(Div(NUM,8),Vec::len(var:Vec<u8>))"):
-                    guard_ok = body.dominates(d, sb)
+            conds = [f for f in q.facts_at(body, rb, r2) if f.cond.bb not in [c.bb for c in q.path_conditions(body, sb)]]
+            for f in conds:
+                if f.key() not in (("Le", "Vec::len(var:Vec<u8>)", "Div(NUM,8)"), ("Le", "Vec::len(var:Vec<u8>)", "Shr(NUM,3)"), ("Lt", "Vec::len(var:Vec<u8>)", "Add(1,Div(NUM,8))")):
+                    guard_ok = False
             ok = guard_ok
     ctx.check(ok, rule, fn, "R2:bounded-bit-write", "before bit NUM is set the byte buffer is grown to NUM / 8 + 1 bytes unless it is already that long")
     # flush: encode_rmi called only with had_rmi, before ';' and at the end
